@@ -47,3 +47,15 @@ register('C15', 'translation_validation',
          "decidable by CrossHair (sys.intern realises symbolic strings) and is covered through the derived-template "
          "pipeline only",
          "SMT translation validation across frontends (symx + z3) + CrossHair on string helpers", "7/C15")
+register('C05', 'translation_validation',
+         "Random expression trees over the documented grammar (+ - * / ^, unary minus, nested calls of 15 functions, "
+         "literals in several spellings, pi, identifier pools whose names contain one another) are rendered with random "
+         "surface variation (spacing, ^ vs **, parentheses, d/dt * x vs x') into one-equation operators; z3 proves the "
+         "emitted derivative AND the value produced by ComputeGraph.eval_node (lambdified sympy callables executed on "
+         "symbols) equal the direct evaluation of the tree for all variable values. CrossHair confirms split_equation, "
+         "the lhs derivative forms and unique-label generation over symbolic strings / label sequences.",
+         "reals for floats; transcendentals are uninterpreted functions with instantiated lemmas, so a `sat` that does "
+         "not reproduce numerically is inconclusive (e.g. constants folded by sympy in floating point); depth <= 3/5; "
+         "calls whose arguments are all literals, index helpers, E and complex values are outside; _preprocess_dde_syntax "
+         "is regex based and covered through C10 programs only",
+         "SMT translation validation of both evaluation paths (symx + z3) + CrossHair on string helpers", "7/C05")
